@@ -652,6 +652,8 @@ fn map_size(len: usize, is_array_element: &IsArrayElement) -> Result<usize, usiz
 #[derive(Debug)]
 pub struct TupleStructSerializer<'a> {
     field_role: FieldRole,
+    /// Size of the descriptor, which is written in front of the list and not inside it
+    descriptor_size: usize,
     cumulated_size: usize,
     se: &'a mut SizeSerializer,
 }
@@ -659,6 +661,7 @@ pub struct TupleStructSerializer<'a> {
 impl<'a> TupleStructSerializer<'a> {
     fn descriptor(se: &'a mut SizeSerializer) -> Self {
         Self {
+            descriptor_size: 0,
             cumulated_size: 0,
             field_role: FieldRole::Descriptor,
             se,
@@ -667,6 +670,7 @@ impl<'a> TupleStructSerializer<'a> {
 
     fn fields(se: &'a mut SizeSerializer) -> Self {
         Self {
+            descriptor_size: 0,
             cumulated_size: 0,
             field_role: FieldRole::Fields,
             se,
@@ -686,7 +690,7 @@ impl ser::SerializeTupleStruct for TupleStructSerializer<'_> {
             FieldRole::Descriptor => {
                 self.field_role = FieldRole::Fields;
                 let mut serializer = SizeSerializer::new();
-                self.cumulated_size += value.serialize(&mut serializer)?;
+                self.descriptor_size += value.serialize(&mut serializer)?;
                 Ok(())
             }
             FieldRole::Fields => match self.se.struct_encoding() {
@@ -721,11 +725,12 @@ impl ser::SerializeTupleStruct for TupleStructSerializer<'_> {
             StructEncoding::DescribedList => {
                 let _ = self.se.struct_encoding.pop();
                 list_size(self.cumulated_size, &self.se.is_array_element)
+                    .map(|size| self.descriptor_size + size)
                     .map_err(|_| Error::too_long())
             }
             StructEncoding::DescribedBasic => {
                 let _ = self.se.struct_encoding.pop();
-                Ok(self.cumulated_size)
+                Ok(self.descriptor_size + self.cumulated_size)
             }
             StructEncoding::DescribedMap => {
                 unreachable!("TupleStructSerializer is NOT used for DescribedMap")
@@ -737,6 +742,8 @@ impl ser::SerializeTupleStruct for TupleStructSerializer<'_> {
 /// SeqSerializer that calculates the size of serialized data without actually allocating `Vec<u8>`
 #[derive(Debug)]
 pub struct StructSerializer<'a> {
+    /// Size of the descriptor, which is written in front of the list / map and not inside it
+    descriptor_size: usize,
     cumulated_size: usize,
     se: &'a mut SizeSerializer,
 }
@@ -744,6 +751,7 @@ pub struct StructSerializer<'a> {
 impl<'a> StructSerializer<'a> {
     fn new(se: &'a mut SizeSerializer) -> Self {
         Self {
+            descriptor_size: 0,
             cumulated_size: 0,
             se,
         }
@@ -761,7 +769,7 @@ impl ser::SerializeStruct for StructSerializer<'_> {
         use ser::Serialize;
 
         if key == DESCRIPTOR {
-            self.cumulated_size += value.serialize(&mut *self.se)?;
+            self.descriptor_size += value.serialize(&mut *self.se)?;
             Ok(())
         } else {
             match self.se.struct_encoding() {
@@ -798,16 +806,18 @@ impl ser::SerializeStruct for StructSerializer<'_> {
             StructEncoding::DescribedList => {
                 let _ = self.se.struct_encoding.pop();
                 list_size(self.cumulated_size, &self.se.is_array_element)
+                    .map(|size| self.descriptor_size + size)
                     .map_err(|_| Error::too_long())
             }
             StructEncoding::DescribedMap => {
                 let _ = self.se.struct_encoding.pop();
                 map_size(self.cumulated_size, &self.se.is_array_element)
+                    .map(|size| self.descriptor_size + size)
                     .map_err(|_| Error::too_long())
             }
             StructEncoding::DescribedBasic => {
                 let _ = self.se.struct_encoding.pop();
-                Ok(self.cumulated_size)
+                Ok(self.descriptor_size + self.cumulated_size)
             }
         }
     }
